@@ -13,8 +13,8 @@ LEVEL = "exploration"
 TECHNIQUE = ("runtime monitoring: acceptance / resuming / justification / never-stuck assertions on reruns of generated failed "
              "histories + relational clean-twin (same scenario in which the re-executed actions succeed the first time)")
 RULE = ("generated definitions x hashed outcomes driven to a completed status (task failure, with-items item failure, fail "
-        "command, unreachable join, also succeeded and canceled ones) x rerun request sets {default, every single failed "
-        "task, random subsets, with reset_items, a task that never ran, a route that does not exist} and rerun "
+        "command, unreachable join, also succeeded and canceled ones, leftover actions canceled by the provider after the "
+        "failure) x rerun request sets {default, every single failed task, the failed together with the canceled tasks, random subsets, with reset_items, a task that never ran, a route that does not exist} and rerun "
         "requests on clones of ACTIVE workflows; after an accepted rerun every action succeeds and the run continues "
         "to quiescence; asserted: rejection exactly for active workflows / unknown executions with the state "
         "unchanged, status resuming after acceptance, every later offer is a requested task, a descendant of one, or "
@@ -82,6 +82,9 @@ def reruns(job):
                                                       wf=wf, workload=job.get("name"),
                                                       job=dict({x: job[x] for x in job if x not in ("lo", "hi")}, only=[seed], lo=seed, hi=seed + 1)))
 
+        if job.get("late_canceled"):
+            # once the workflow has failed the provider cancels what is still running: those actions report `canceled`
+            probe.outcomes.force = lambda a: (("canceled", None) if probe.ctl["first_terminal"] == "failed" else None)
         explore.run_free(probe, pol, hook=try_rerun_while_active)
         # the same on a workflow that was paused (pausing with actions in flight, then paused at rest)
         if len(probe.script) > 2:
@@ -109,6 +112,10 @@ def reruns(job):
             sets.append(("single", [(t, r, False)]))
             if m.tasks[t].items is not None:
                 sets.append(("reset_items", [(t, r, True)]))
+        canceled = sorted(set((r["id"], r["route"]) for r in seqrecs if r.get("status") == "canceled" and r["id"] in m.tasks))
+        if canceled and st == "failed":
+            cnt("first_runs_with_canceled_tasks")
+            sets.append(("with_canceled", [(t, r, False) for t, r in failed + canceled]))
         if len(failed) >= 2:
             sets.append(("subset", [(t, r, rng.random() < 0.3) for t, r in rng.sample(failed, rng.randint(2, len(failed)))]))
         ran = sorted(set((r["id"], r["route"]) for r in seqrecs if r["id"] in m.tasks))
@@ -149,7 +156,9 @@ def reruns(job):
                 # identity of a re-executed action = (task, item, loop key); the attempt number restarts at a rerun
                 after_ids = set((o["task"], o["item"], o.get("loop")) for o in run.offers[before_offers:])
                 # ---- convergence with the clean twin (default rerun of plain action / item failures only)
-                if label == "default" and st == "failed" and led is not None and led.enabled and not led.fail_cmds \
+                # (a default rerun leaves tasks the provider canceled as they are: the workflow then legitimately ends
+                # canceled, there is no clean twin for that; the twin applies when they are named in the request)
+                if (label == "with_canceled" or (label == "default" and not canceled)) and st == "failed" and led is not None and led.enabled and not led.fail_cmds \
                         and led.unhandled and not run.tags & {"late_arrival_int_join"} \
                         and all(not x.handled for x in led.execs if x.status == "failed"):
                     clean = explore.make_run(case, [workloads.ledger.Ledger()], model=m, label="clean-twin")
@@ -186,6 +195,9 @@ def jobs(tier, seed):
     js += batches("reruns", scale(tier, 96, 3000), scale(tier, 6, 100), gen="mix", p_loop=0.2, gseed=seed + 1, p_fail=0.2,
                   P=dict(P, p_join=0.0, p_items=0.5, p_fail_cmd=0.03, p_retry=0.05, nmax=5, max_do=2, max_trans=2, xs_max=2),
                   name="reruns-no-joins")
+    # the provider cancels the actions still running once the workflow has failed; reruns name failed and canceled tasks
+    js += batches("reruns", scale(tier, 64, 2500), scale(tier, 8, 100), gen="dag", gseed=seed + 2, p_fail=0.3, late_canceled=True,
+                  P=dict(P, p_intjoin=0.0, p_fail_cmd=0.0, p_items=0.1, p_retry=0.0, nmax=5), name="reruns-after-provider-cancel")
     return js
 
 
